@@ -265,7 +265,11 @@ def r08_3(ctx: Ctx) -> None:
     ok = False
     if starts:
         index = txt(starts[0].targets[0])
-        ok = any(isinstance(n, ast.While) and f"{hparams[1]}[{index} - 1].location.start == {hparams[0]}.start" in txt(n.test)
+        from ..flow import inline_reaching as _res
+        hcfg = CFG(helper)
+        want = (f"{hparams[1]}[{index} - 1].location.start == {hparams[0]}.start",
+                f"{hparams[0]}.start == {hparams[1]}[{index} - 1].location.start")
+        ok = any(isinstance(n, ast.While) and any(w in txt(_res(hcfg, n, n.test, keep={index})) for w in want)
                  and any(isinstance(b, ast.AugAssign) and txt(b.target) == index and isinstance(b.op, ast.Sub) and txt(b.value) == "1"
                          for b in n.body) for n in walk_local(helper))
     ctx.ob("R08.3", REC, helper, "Record.get_cds_features_within_location.find_start_in_list", "ties at the start included", ok,
@@ -352,7 +356,12 @@ def r08_5(ctx: Ctx) -> None:
                             and call.func.attr in ("append", "insert", "extend") and cfg.dominates(cfg.n(call), cfg.n(loop)) is not None \
                             and cfg.exists_path(cfg.n(call), cfg.n(loop)):
                         extra += " " + txt(call)
-            first_included = any(f"{lst}{idx}" in text + extra for idx in ("[:1]", "[0]", "[0:1]"))
+            resolved_extra = extra
+            for call in calls(func):
+                if isinstance(call.func, ast.Attribute) and isinstance(loop.iter, ast.Name) and txt(call.func.value) == loop.iter.id \
+                        and call.func.attr in ("append", "insert", "extend") and call.args:
+                    resolved_extra += " " + txt(inline_reaching(cfg, call, call.args[-1]))
+            first_included = any(f"{lst}{idx}" in text + extra + resolved_extra for idx in ("[:1]", "[0]", "[0:1]"))
             ctx.ob("R08.5", REC, loop, qual, f"window over {lst}", first_included,
                    "the window over the sorted regions around the gene's bisection point also offers the gene to the first "
                    "region (a region spanning the origin sorts first whatever the position of the genes in its pre-origin part)",
